@@ -75,6 +75,31 @@ Theorem C04_refuted_K4 :
 Proof. vm_compute. split; reflexivity. Qed.
 Print Assumptions C04_refuted_K4.
 
+(* finding K14: the same lookup across a parameter update.  Configuration 1 routes 25% of the main inflow to INTERNAL x, which a
+   second sub-distributor passes on; the update re-types x to a base account that is a final destination.  In the block after
+   the update the share is still credited to the stale INTERNAL state (which nobody reads and nobody pays): the base account's
+   balance stays empty, the 250 coins stay in the main account *)
+Theorem C04_refuted_K14 :
+  let main := {| da_type := T_MAIN; da_id := 0; da_key := 9; da_addr := -1 |} in
+  let xi := {| da_type := T_INTERNAL; da_id := 5; da_key := 3; da_addr := -1 |} in
+  let xb := {| da_type := T_BASE; da_id := 5; da_key := 2; da_addr := 2 |} in
+  let d1 := {| da_type := T_BASE; da_id := 1; da_key := 1; da_addr := 1 |} in
+  let cfg1 := [ {| sd_name := 1; sd_sources := [main]; sd_primary := d1; sd_burn := 0; sd_shares := [{| sh_name := 1; sh_share := P / 4; sh_dest := xi |}] |};
+                {| sd_name := 2; sd_sources := [xi]; sd_primary := d1; sd_burn := 0; sd_shares := [] |} ] in
+  let cfg2 := [ {| sd_name := 1; sd_sources := [main]; sd_primary := d1; sd_burn := 0; sd_shares := [{| sh_name := 1; sh_share := P / 4; sh_dest := xb |}] |} ] in
+  let w0 := {| dw_subs := cfg1; dw_states := []; dw_bal := [(MAINADDR, [(0, 1000)])]; dw_burned := []; dw_burnkey := 9 |} in
+  match dist_begin_block w0 [] with
+  | Ok (w1, _, _) =>
+      match dist_begin_block (dist_inflow (dist_set_subs w1 cfg2) MAINADDR [(0, 1000)]) [] with
+      | Ok (w2, _, _) =>
+          bal_of (dw_bal w1) 1 = [(0, 1000)] /\                      (* before the update everything reaches d1 *)
+          bal_of (dw_bal w2) 2 = [] /\ bal_of (dw_bal w2) 1 = [(0, 1750)] /\ bal_of (dw_bal w2) MAINADDR = [(0, 250)] /\
+          map (fun s => (st_key s, dc_amt 0 (st_rem s))) (dw_states w2) = [(1, 0); (3, 250 * P)]
+      | _ => False end
+  | _ => False end.
+Proof. vm_compute. repeat split; reflexivity. Qed.
+Print Assumptions C04_refuted_K14.
+
 Example C04_example :
   match dist_begin_block C4EProps.C03.ex_dworld [] with
   | Ok (w1, evs, _) => map (fun e => map (fun x => dc_amt 0 (snd x)) (snd e)) evs
